@@ -126,9 +126,10 @@ class C17Machine(Machine):
         return {'runs': 900000, 'budget_s': 1500, 'batch': 300}
 
     def generate(self, rng, tier, index):
-        D = rng.randint(1, 5)
+        # mostly few channels; sometimes two-digit parameter numbers ($P10V, BD$WORD22, CytekP11G)
+        D = rng.randint(1, 5) if rng.chance(0.88) else rng.randint(10, 13)
         tstate = rng.wchoice([('none', 4), ('one', 5), ('two', 1)])
-        names = ['FSC-H', 'SSC-H', 'FL1-H', 'FL2-H', 'FL3-H'][:D]
+        names = (['FSC-H', 'SSC-H', 'FL1-H', 'FL2-H', 'FL3-H'] + ['FL%d-A' % j for j in range(4, 13)])[:D]
         if tstate == 'one':
             names[rng.randint(0, D - 1)] = rng.choice(TIME_NAMES)
         elif tstate == 'two':
